@@ -732,4 +732,311 @@ theorem reader_agrees (a : AddrParts) (hok : a.ok) (hnip : parseIP a.host = none
     unfold Address.normalize
     simp only [hnip, toLower_tableScheme]
 
+/-! ## Address.VHost and Address.Key on well-formed addresses -/
+
+theorem vhost_eq_splitScheme (a : Address) : a.vhost = (splitScheme a.original).2 := by
+  unfold Address.vhost splitScheme
+  cases indexSub a.original b!"://" 0 <;> rfl
+
+/-- the normalised Address of a well-formed text -/
+theorem normalized_compose (a : AddrParts) (hok : a.ok) (hnip : parseIP a.host = none) (r : Address)
+    (h : standardizeAddress (composeAddr a) = .ok r) :
+    r.normalize = { original := composeAddr a, scheme := tableScheme (toLower a.scheme) (tablePort (toLower a.scheme) a.port),
+                    host := toLower a.host, port := tablePort (toLower a.scheme) a.port, path := [] } := by
+  rw [standardize_compose a hok] at h
+  unfold expectedAddr at h
+  simp only at h
+  split at h
+  · cases h
+  · injection h with h
+    subst h
+    unfold Address.normalize
+    simp only [hnip, toLower_tableScheme]
+    rfl
+
+/-- VHost = the address text without its scheme: `name[:port]` -/
+theorem vhost_compose (a : AddrParts) (hok : a.ok) (hnip : parseIP a.host = none) (r : Address)
+    (h : standardizeAddress (composeAddr a) = .ok r) : r.normalize.vhost = a.host ++ portPart a := by
+  rw [normalized_compose a hok hnip r h, vhost_eq_splitScheme]
+  simp only
+  rw [splitScheme_compose a hok]
+
+theorem toLower_length (s : Bytes) : (toLower s).length = s.length := by simp [toLower]
+
+/-- the site key of a well-formed address -/
+def expectedKey (a : AddrParts) : Bytes :=
+  let port := tablePort (toLower a.scheme) a.port
+  let s := tableScheme (toLower a.scheme) port
+  (if s.isEmpty then [] else s ++ b!"://") ++ toLower a.host ++
+    (match a.port with
+     | some p => if a.scheme.isEmpty && !s.isEmpty then [] else 58 :: p
+     | none => [])
+
+theorem hasPrefix_self_cons (x : UInt8) (p t : Bytes) : hasPrefix (x :: p ++ t) (x :: p) = true := by
+  unfold hasPrefix; rw [List.isPrefixOf_iff_prefix]; exact ⟨t, by simp⟩
+
+/-- Address.Key of a well-formed address: `[scheme://]name[:port]` with the scheme of the table and the lower-cased name;
+the port is kept when it was written — except that a written 80/443 without scheme is absorbed into the inferred scheme. -/
+theorem key_compose (a : AddrParts) (hok : a.ok) (hnip : parseIP a.host = none) (r : Address)
+    (h : standardizeAddress (composeAddr a) = .ok r) : r.normalize.key = expectedKey a := by
+  rw [normalized_compose a hok hnip r h]
+  unfold Address.key expectedKey
+  simp only [List.append_nil]
+  by_cases hs : a.scheme.isEmpty = true
+  · -- no scheme written
+    have hs' : a.scheme = [] := by simpa using hs
+    have hcomp : composeAddr a = a.host ++ portPart a := by unfold composeAddr; simp [hs]
+    have hl : toLower a.scheme = [] := by rw [hs']; rfl
+    rw [hcomp, hl]
+    unfold portPart
+    cases hpt : a.port with
+    | none =>
+      have : tablePort [] none = [] := by unfold tablePort; simp
+      simp only [this]
+      have : tableScheme [] [] = [] := by decide
+      simp [this]
+    | some p =>
+      obtain ⟨hne, hd⟩ := hok.2.2 p hpt
+      have hpe : p.isEmpty = false := by cases p <;> simp_all
+      have htp : tablePort [] (some p) = p := rfl
+      simp only [htp, hs', List.isEmpty_nil, Bool.true_and]
+      unfold tableScheme
+      simp only [List.isEmpty_nil, if_true]
+      rw [tables_ports.1, tables_ports.2.1]
+      by_cases h80 : (p == b!"80") = true
+      · have : p = b!"80" := by simpa using h80
+        subst this
+        simp [toLower_length]
+        omega
+      · simp only [h80, Bool.false_eq_true, if_false]
+        by_cases h443 : (p == b!"443") = true
+        · have : p = b!"443" := by simpa using h443
+          subst this
+          simp [toLower_length]
+          omega
+        · simp only [h443, Bool.false_eq_true, if_false, List.isEmpty_nil, if_true, List.nil_append, Bool.not_true,
+            hpe, Bool.not_false, Bool.true_and, toLower_length, List.length_append, List.length_cons]
+          have hdrop : (a.host ++ 58 :: p).drop a.host.length = 58 :: p := by simp
+          simp [hdrop, hasPrefix]
+  · -- scheme written
+    have hne : a.scheme ≠ [] := by simpa using hs
+    have hl : (toLower a.scheme).isEmpty = false := by
+      cases hsc : a.scheme with
+      | nil => exact absurd hsc hne
+      | cons c t => simp [toLower]
+    have hcomp : composeAddr a = a.scheme ++ b!"://" ++ (a.host ++ portPart a) := by unfold composeAddr; simp [hs]
+    have hts : ∀ p, tableScheme (toLower a.scheme) p = toLower a.scheme := by intro p; unfold tableScheme; simp [hl]
+    rw [hcomp]
+    simp only [hts, hl, Bool.false_eq_true, if_false, hs, Bool.false_and]
+    have hlen : (toLower a.scheme ++ b!"://" ++ toLower a.host).length = (a.scheme ++ b!"://").length + a.host.length := by
+      have h1 := toLower_length a.scheme
+      have h2 := toLower_length a.host
+      simp only [List.length_append, List.length_cons, List.length_nil] at *
+      omega
+    have hdrop : (a.scheme ++ b!"://" ++ (a.host ++ portPart a)).drop (toLower a.scheme ++ b!"://" ++ toLower a.host).length = portPart a := by
+      rw [hlen]
+      have : a.scheme ++ b!"://" ++ (a.host ++ portPart a) = (a.scheme ++ b!"://" ++ a.host) ++ portPart a := by simp
+      rw [this]
+      have hl2 : (a.scheme ++ b!"://").length + a.host.length = (a.scheme ++ b!"://" ++ a.host).length := by
+        simp only [List.length_append]
+      rw [hl2, List.drop_left]
+    rw [hdrop]
+    unfold portPart
+    cases hpt : a.port with
+    | none =>
+      simp only [hasPrefix]
+      have : ∀ q : Bytes, (b!":" ++ q).isPrefixOf ([] : Bytes) = false := by intro q; rfl
+      simp [this]
+    | some p =>
+      obtain ⟨hne', hd⟩ := hok.2.2 p hpt
+      have hpe : p.isEmpty = false := by cases p <;> simp_all
+      have htp : tablePort (toLower a.scheme) (some p) = p := rfl
+      have hge : (a.scheme ++ b!"://" ++ (a.host ++ 58 :: p)).length ≥ (toLower a.scheme ++ b!"://" ++ toLower a.host).length := by
+        have h1 := toLower_length a.scheme
+        have h2 := toLower_length a.host
+        simp only [List.length_append, List.length_cons, List.length_nil] at *
+        omega
+      simp [htp, hpe, hasPrefix, toLower_length]
+
+/-- the site key, taken apart again -/
+def keyParts (a : AddrParts) : AddrParts :=
+  let port := tablePort (toLower a.scheme) a.port
+  let s := tableScheme (toLower a.scheme) port
+  { scheme := s, host := toLower a.host,
+    port := match a.port with
+      | some p => if a.scheme.isEmpty && !s.isEmpty then none else some p
+      | none => none }
+
+theorem expectedKey_eq_compose (a : AddrParts) : expectedKey a = composeAddr (keyParts a) := by
+  unfold expectedKey composeAddr keyParts portPart
+  simp only
+  cases hpt : a.port with
+  | none => simp
+  | some p =>
+    simp only
+    by_cases hc : (a.scheme.isEmpty && !(tableScheme (toLower a.scheme) (tablePort (toLower a.scheme) (some p))).isEmpty) = true
+    · simp [hc]
+    · simp [hc]
+
+theorem tableScheme_alpha (s p : Bytes) (h : s.all isAlpha = true) : (tableScheme s p).all isAlpha = true := by
+  unfold tableScheme
+  split
+  · split
+    · decide
+    · split
+      · decide
+      · exact h
+  · exact h
+
+theorem keyParts_ok (a : AddrParts) (hok : a.ok) : (keyParts a).ok := by
+  have hl := lower_ok a hok
+  refine ⟨tableScheme_alpha _ _ hl.1, hl.2.1, ?_⟩
+  intro p hp
+  unfold keyParts at hp
+  simp only at hp
+  cases hpt : a.port with
+  | none => simp [hpt] at hp
+  | some q =>
+    simp only [hpt] at hp
+    split at hp
+    · cases hp
+    · cases hp; exact hok.2.2 _ hpt
+
+/-- the error test of standardizeAddress does not fire on the key of an address that passed it -/
+theorem key_table (a : AddrParts) :
+    let k := keyParts a
+    tablePort (toLower k.scheme) k.port = tablePort (toLower a.scheme) a.port ∧
+    tableScheme (toLower k.scheme) (tablePort (toLower k.scheme) k.port) = tableScheme (toLower a.scheme) (tablePort (toLower a.scheme) a.port) := by
+  intro k
+  have hks : toLower k.scheme = k.scheme := toLower_tableScheme _ _
+  have hport : tablePort (toLower k.scheme) k.port = tablePort (toLower a.scheme) a.port := by
+    rw [hks]
+    show tablePort (tableScheme (toLower a.scheme) (tablePort (toLower a.scheme) a.port)) (keyParts a).port = _
+    unfold keyParts
+    simp only
+    cases hpt : a.port with
+    | none =>
+      -- no port written: the port follows from the scheme, which the key keeps
+      unfold tablePort tableScheme
+      simp only
+      by_cases h1 : (toLower a.scheme == b!"http") = true
+      · have : toLower a.scheme = b!"http" := by simpa using h1
+        rw [this]; decide
+      · by_cases h2 : (toLower a.scheme == b!"https") = true
+        · have : toLower a.scheme = b!"https" := by simpa using h2
+          rw [this]; decide
+        · simp only [h1, h2, Bool.false_eq_true, if_false]
+          by_cases he : (toLower a.scheme).isEmpty = true
+          · have : toLower a.scheme = [] := by simpa using he
+            rw [this]; decide
+          · simp [he, h1, h2]
+    | some p =>
+      by_cases hs : a.scheme.isEmpty = true
+      · have hs' : a.scheme = [] := by simpa using hs
+        have hl : toLower a.scheme = [] := by rw [hs']; rfl
+        simp only [hs, hl, Bool.true_and]
+        have htp : tablePort [] (some p) = p := rfl
+        rw [htp]
+        unfold tableScheme
+        simp only [List.isEmpty_nil, if_true]
+        by_cases h80 : (p == httpPort) = true
+        · have : p = httpPort := by simpa using h80
+          subst this; decide
+        · simp only [h80, Bool.false_eq_true, if_false]
+          by_cases h443 : (p == httpsPort) = true
+          · have : p = httpsPort := by simpa using h443
+            subst this; decide
+          · simp [h443, tablePort]
+      · simp only [hs, Bool.false_and, Bool.false_eq_true, if_false]
+        rfl
+  refine ⟨hport, ?_⟩
+  rw [hport, hks]
+  show tableScheme (tableScheme (toLower a.scheme) (tablePort (toLower a.scheme) a.port)) _ = _
+  generalize tablePort (toLower a.scheme) a.port = port
+  unfold tableScheme
+  by_cases he : (toLower a.scheme).isEmpty = true
+  · simp only [he, if_true]
+    by_cases h80 : (port == httpPort) = true
+    · simp [h80]
+    · by_cases h443 : (port == httpsPort) = true
+      · simp [h80, h443]
+      · simp [h80, h443, he]
+  · simp [he]
+
+theorem expectedAddr_ok_of_key (a : AddrParts) (r : Address) (h : expectedAddr a = .ok r) :
+    ∃ r', expectedAddr (keyParts a) = .ok r' := by
+  have hkt := key_table a
+  simp only at hkt
+  unfold expectedAddr at h ⊢
+  simp only at h ⊢
+  split at h
+  · cases h
+  · rename_i hconv
+    rw [hkt.1]
+    have hks : toLower (keyParts a).scheme = (keyParts a).scheme := toLower_tableScheme _ _
+    rw [hks]
+    have hsch : (keyParts a).scheme = tableScheme (toLower a.scheme) (tablePort (toLower a.scheme) a.port) := rfl
+    rw [hsch]
+    generalize tablePort (toLower a.scheme) a.port = port at hconv ⊢
+    have hnc : ((tableScheme (toLower a.scheme) port == b!"http" && port == httpsPort) ||
+        (tableScheme (toLower a.scheme) port == b!"https" && port == httpPort)) = false := by
+      unfold tableScheme
+      by_cases he : (toLower a.scheme).isEmpty = true
+      · simp only [he, if_true]
+        by_cases h80 : (port == httpPort) = true
+        · have : port = httpPort := by simpa using h80
+          subst this
+          simp only [beq_self_eq_true, if_true]; decide
+        · by_cases h443 : (port == httpsPort) = true
+          · have : port = httpsPort := by simpa using h443
+            subst this
+            have : (httpsPort == httpPort) = false := by decide
+            simp only [this, Bool.false_eq_true, if_false, beq_self_eq_true, if_true]; decide
+          · have he' : toLower a.scheme = [] := by simpa using he
+            simp [h80, h443, he']
+      · simp only [he, Bool.false_eq_true, if_false]
+        simpa using hconv
+    simp [hnc]
+
+/-- ROUND TRIP through the site key: the key of a well-formed address is itself a well-formed address; parsing it again
+gives the same scheme, host and port, and the same key. -/
+theorem key_roundtrip (a : AddrParts) (hok : a.ok) (hnip : parseIP a.host = none) (hnip' : parseIP (toLower a.host) = none)
+    (r : Address) (h : standardizeAddress (composeAddr a) = .ok r) :
+    ∃ r', standardizeAddress r.normalize.key = .ok r' ∧ r'.normalize.scheme = r.normalize.scheme ∧
+      r'.normalize.host = r.normalize.host ∧ r'.normalize.port = r.normalize.port ∧ r'.normalize.key = r.normalize.key := by
+  have hkok := keyParts_ok a hok
+  have hkey := key_compose a hok hnip r h
+  have hnorm := normalized_compose a hok hnip r h
+  have hexp : expectedAddr a = .ok r := by rw [← standardize_compose a hok]; exact h
+  obtain ⟨r', hr'⟩ := expectedAddr_ok_of_key a r hexp
+  have hstd : standardizeAddress (composeAddr (keyParts a)) = .ok r' := by rw [standardize_compose _ hkok]; exact hr'
+  have hnorm' := normalized_compose (keyParts a) hkok hnip' r' hstd
+  have hkt := key_table a
+  simp only at hkt
+  have hkhost : (keyParts a).host = toLower a.host := rfl
+  refine ⟨r', by rw [hkey, expectedKey_eq_compose]; exact hstd, ?_, ?_, ?_, ?_⟩
+  · rw [hnorm', hnorm]; exact hkt.2
+  · rw [hnorm', hnorm]; simp only [hkhost]; exact toLower_idem _
+  · rw [hnorm', hnorm]; exact hkt.1
+  · rw [key_compose (keyParts a) hkok hnip' r' hstd, hkey, expectedKey_eq_compose, expectedKey_eq_compose]
+    congr 1
+    -- keyParts is idempotent
+    have hs2 : (keyParts (keyParts a)).scheme = (keyParts a).scheme := hkt.2
+    have hh2 : (keyParts (keyParts a)).host = (keyParts a).host := toLower_idem _
+    have hp2 : (keyParts (keyParts a)).port = (keyParts a).port := by
+      show (match (keyParts a).port with
+        | some p => if (keyParts a).scheme.isEmpty && !(keyParts (keyParts a)).scheme.isEmpty then none else some p
+        | none => none) = (keyParts a).port
+      rw [hs2]
+      cases (keyParts a).port with
+      | none => rfl
+      | some p => cases (keyParts a).scheme.isEmpty <;> simp
+    cases hk : keyParts (keyParts a) with
+    | mk s2 h2 p2 =>
+      cases hk1 : keyParts a with
+      | mk s1 h1 p1 =>
+        rw [hk, hk1] at hs2 hh2 hp2
+        simp only at hs2 hh2 hp2
+        rw [hs2, hh2, hp2]
+
 end Casket.AutoHTTPS
